@@ -25,6 +25,7 @@ type tmplCfg struct {
 	symRecur   bool     // recurrent flags symbolic (else false)
 	symEnable  bool     // enabled flags symbolic (else true)
 	links      [][2]int // explicit endpoints (indices into the node list) for the first len(links) genes
+	hiddenGap  bool     // hidden node ids start two above the last output id (a recorded node id may lie in between)
 	biasFree   bool     // with fixedBase: the second base gene is input->last node, so the bias sensor is unconnected
 	lateInput  bool     // an additional input sensor with the LAST id (sensors need not come first in a genome)
 	lateOutput bool     // an additional, unconnected output node with the LAST id (a hidden node precedes it in the node list)
@@ -78,6 +79,9 @@ func tNodes(tag string, ts []*neat.Trait, c tmplCfg) []*network.NNode {
 		n.Trait = tPickTrait(tag+".out", ts, c.nilTraits && c.hidden == 0 && i == c.outputs-1, true, i)
 		nodes = append(nodes, n)
 		id++
+	}
+	if c.hiddenGap {
+		id += 2
 	}
 	for i := 0; i < c.hidden; i++ {
 		n := network.NewNNode(id, network.HiddenNeuron)
